@@ -196,23 +196,28 @@ def run(ck):
         return
     before = len(ck.failures)
     evaluate(ck, recs)
-    fresh = [f for f in ck.failures[before:] if f.get("kind") == "input" and f.get("case")]
-    if fresh:
+    n0 = None
+    for k in range(2):
+        fresh = [f for f in ck.failures[before:] if f.get("kind") == "input" and f.get("case")]
+        if not fresh:
+            break
+        if n0 is None:
+            n0 = len(fresh)
         # real-time observations: a deviation is reported only if it reproduces when the same script/scenario is re-run alone
         inp = os.path.join(ck.work, "confirm_in.jsonl")
         with open(inp, "w") as fh:
             for f in fresh:
                 fh.write(json.dumps(f["case"]) + "\n")
         again = ck.run_harness(binp, ["-in", inp], out_name="confirm.jsonl")
-        if again is not None:
-            keep = ck.failures[:before] + [f for f in ck.failures[before:] if f not in fresh]
-            ev, nt = ck.cov["evaluations"], set(ck._distinct)
-            ck.failures = keep
-            mark = len(ck.failures)
-            evaluate(ck, again, tag="confirm_")
-            ck.cov["evaluations"], ck._distinct = ev, nt
-            ck.notes.append("%d case(s) off the oracle/model in the main run were re-run alone: %d reproduced" % (
-                len(fresh), len(ck.failures) - mark))
+        if again is None:
+            break
+        ev, nt = ck.cov["evaluations"], set(ck._distinct)
+        ck.failures = ck.failures[:before] + [f for f in ck.failures[before:] if f not in fresh]
+        evaluate(ck, again, tag="confirm%d_" % k)
+        ck.cov["evaluations"], ck._distinct = ev, nt
+    if n0:
+        ck.notes.append("%d case(s) off the oracle/model in the main run were re-run alone (up to twice): %d reproduced" % (
+            n0, len([f for f in ck.failures[before:] if f.get("kind") == "input"])))
     for k in ("gater", "limiter", "hosts"):
         for r in [x for x in recs if x["k"] == k][:1]:
             s = dict(r)
